@@ -132,8 +132,14 @@ func TestExhTruncations(t *testing.T) {
 	}
 	gen := rapid.Custom(srcmut.Seeds)
 	base := int(ev.Seed("trunc") % 1000003)
-	for i := 0; i < seeds; i++ {
+	sh, _ := ev.Shard()
+	for i := 0; i < seeds+2; i++ {
 		c := gen.Example(base + i)
+		if i >= seeds {
+			// every shard also sweeps one of the hand-written sources that hold all the
+			// literal and escape forms
+			c = srcmut.Rich(sh*2 + i - seeds)
+		}
 		name := c.Main
 		if c.Kind == "program" {
 			name = "main.go"
